@@ -845,10 +845,18 @@ pub fn main(args: &Args) -> ! {
         // frame (e.g. STOP_SENDING) reaches the peer in two different packets
         let alts_v = events_alts(thorough);
         let alts: &[crate::sim::Fate] = &alts_v;
-        let oracle = |p: &StdPair, _done: bool| -> (Vec<(String, String)>, u64) {
+        let oracle = |p: &StdPair, done: bool| -> (Vec<(String, String)>, u64) {
             let mut v = event_discipline(p);
             for (s, w) in integrity(p) {
                 v.push((format!("integrity:{s}"), w));
+            }
+            // the terminal notifications must actually come: a finished stream whose data was
+            // delivered reports Finished exactly once (the run continues on a reliable network
+            // for 600 s of virtual time after the deviations)
+            for (s, w) in crate::scen::completion(p) {
+                if s == "finished-event" || (!done && s == "write-stalled") {
+                    v.push((format!("terminal-event-missing:{s}"), w));
+                }
             }
             (v, 0)
         };
@@ -876,7 +884,7 @@ fn events_cases(thorough: bool) -> Vec<crate::scen::ECase> {
     use crate::app::ReadMode;
     use crate::scen::{plans, ECase, Wl};
     let mut cases = vec![];
-    for (name, wl, win) in [("W4", Wl::W4, (14u64, 40u64)), ("W10", Wl::W10, (10, 30)), ("W2", Wl::W2, (10, 34)), ("W9", Wl::W9, (8, 30)), ("W3", Wl::W3, (8, 30))] {
+    for (name, wl, win) in [("W4", Wl::W4, (14u64, 40u64)), ("W10", Wl::W10, (10, 30)), ("W2", Wl::W2, (10, 34)), ("W9", Wl::W9, (8, 30)), ("W3", Wl::W3, (8, 30)), ("W11", Wl::W11, (6, 30))] {
         let mut cfg = cfg_by_name("default");
         if wl == Wl::W3 {
             cfg.server.max_bidi = Some(1);
